@@ -36,10 +36,10 @@ def returns(fn):
             continue
         for st in bl['stmts']:
             if st['k'] == 'assign' and st['lhs']['l'] == 0 and not st['lhs']['p'] and st['rv']['k'] == 'agg':
-                out.append((b, st['rv']['def'].split('::')[-1], [paths.show_operand(fn, o) for o in st['rv']['ops']], paths.dom_guards(fn, b)))
+                out.append((b, st['rv']['def'].split('::')[-1], [paths.show_operand(fn, o) for o in st['rv']['ops']], paths.GuardList(paths.dom_guards(fn, b, variants=False))))
         t = bl['term']
         if t['k'] == 'call' and t['dest']['l'] == 0 and not t['dest']['p']:
-            out.append((b, 'call ' + paths.short(callee_name(t)), [paths.show_operand(fn, a) for a in t['args']], paths.dom_guards(fn, b)))
+            out.append((b, 'call ' + paths.short(callee_name(t)), [paths.show_operand(fn, a) for a in t['args']], paths.GuardList(paths.dom_guards(fn, b, variants=False))))
     return out
 
 
@@ -50,7 +50,7 @@ def check(R, F):
     lb = F.fn(Z + 'HashMapTreeZone::lookup_base')
     rs = returns(lb)
     wz = [r for r in rs if r[1] == 'WrongZone']
-    ok = len(wz) == 1 and sorted(wz[0][3]) == sorted(['arg3.unchecked in [0]', 'Name::eq_or_subdomain_of(arg2,cast(arg1.apex.name.0.pointer)) in [0]'])
+    ok = len(wz) == 1 and paths.guards_equiv(wz[0][3], ['arg3.unchecked in [0]', 'Name::eq_or_subdomain_of(arg2,cast(arg1.apex.name.0.pointer)) in [0]'])
     R.require(ok, 'wrong-zone', lb.gpath + '|condition', lb.where(wz[0][0]) if wz else lb.where(), 'WrongZone iff !unchecked && !eq_or_subdomain_of(apex)', 'WrongZone is returned under %s' % (wz[0][3] if wz else None))
     cl = [r for r in rs if r[1].startswith('call') and 'lookup_impl' in r[1]]
     ok = len(cl) == 1 and cl[0][2] == ['arg1.apex', 'arg2', 'Sub(Name::len(arg2),Name::len(HashMapTreeZone::name(arg1)))', 'arg3.search_below_cuts', 'true'] and len(rs) == 2
@@ -59,7 +59,7 @@ def check(R, F):
     li = F.fn(Z + 'lookup_impl')
     rs = returns(li)
     ref = [r for r in rs if r[1] == 'Referral']
-    ok = len(ref) == 1 and sorted(ref[0][3]) == sorted(['arg5 in [0]', 'arg4 in [0]', 'discr(RrsetList::lookup(arg1.data.rrsets,Type(2_u16))) in [1]'])
+    ok = len(ref) == 1 and paths.guards_equiv(ref[0][3], ['arg5 in [0]', 'arg4 in [0]', 'discr(RrsetList::lookup(arg1.data.rrsets,Type(2_u16))) in [1]'])
     R.require(ok, 'referral', li.gpath + '|condition', li.where(ref[0][0]) if ref else li.where(), 'Referral iff !at_apex && !search_below_cuts && NS RRset at this node', 'Referral is returned under %s' % (ref[0][3] if ref else None))
     if ref:
         txt = ref[0][2][0]
